@@ -2,7 +2,8 @@
    addresses, an interface that goes away and one that shows up later), the witness of the
    finding that stays (known/C18.json) and of the repaired one; replays in corpus/C18.cases. *)
 From Coq Require Import List NArith Bool String.
-From Mdns Require Import Res Bytes Rec Intf IntfCache Responder IntfDaemon C18Spec ResponderWitness.
+From Mdns Require Import Res Bytes Rec Intf IntfCache Responder IntfDaemon C18Spec ResponderWitness
+     IntfDaemonProofs IntfHistoryProofs IntfRemovalProofs.
 Import ListNotations.
 Open Scope N_scope.
 
@@ -68,3 +69,47 @@ Lemma h_goodbye_checked :
   chk_C18 os_w1 (model_history t0 os_w1 h_goodbye) = true /\
   last_ifs (run (initial_state t0 os_w1) h_goodbye) = [2; 3].
 Proof. split; vm_compute; reflexivity. Qed.
+
+(* ---- the hypotheses of the history theorems on the concrete histories ------------------------------ *)
+
+(* the non-vacuity history is well-formed and outside the known class (and it emits packets,
+   h_ok_checked) *)
+Lemma h_ok_hyps :
+  uniq_keysb os_ok = true /\ wf_stepsb h_ok = true /\ known_class (initial_state t0 os_ok) h_ok = false.
+Proof. repeat split; vm_compute; reflexivity. Qed.
+
+Lemma h_goodbye_hyps :
+  uniq_keysb os_w1 = true /\ wf_stepsb h_goodbye = true /\ known_class (initial_state t0 os_w1) h_goodbye = false.
+Proof. repeat split; vm_compute; reflexivity. Qed.
+
+(* the witness of the finding is in the known class: the class is not empty, and it is where the
+   checker rejects the model's trace *)
+Lemma h_absent_in_class :
+  uniq_keysb os_w2 = true /\ wf_stepsb h_absent = true /\ known_class (initial_state t0 os_w2) h_absent = true.
+Proof. repeat split; vm_compute; reflexivity. Qed.
+
+(* ---- an interface disappears: a state with records learned on eth1, then eth1 is gone ------------- *)
+Definition src_eth1 : intf_id := mkIntfId (b "eth1") 3.
+Definition ptr_peer : rr := mkRR (b "_peer._udp.local.") 12 1 false 4500 (RPtr (b "Peer0._peer._udp.local.")).
+Definition srv_peer : rr := mkRR (b "Peer0._peer._udp.local.") 33 1 true 4500 (RSrv 0 0 7000 (b "peerhost0.local.")).
+Definition a_peer : rr := mkRR (b "peerhost0.local.") 1 1 true 4500 (RAddr [198; 18; 3; 60]).
+Definition d_before_removal : dstate :=
+  let d0 := initial_state t0 [e_eth0_v4; e_eth1_v4] in
+  mkD [e_eth0_v4] (d_intfs d0) (d_regs d0) [] [] (cache_insert (cache_insert (cache_insert empty_cache ptr_peer src_eth1) srv_peer src_eth1) a_peer src_eth1)
+      [b "_peer._udp.local."] [b "Peer0._peer._udp.local."] 1000 (t0 + 1000) [].
+Definition m_eth1 : myintf := mkMyIntf (b "eth1") 3 [mkIfAddr (ip4 10 2 0 10) mask16].
+
+Definition cache_size (c : cache) : nat :=
+  List.length (List.concat (List.map snd (c_ptr c ++ c_srv c ++ c_txt c ++ c_addr c ++ c_nsec c))).
+
+Lemma removal_example :
+  gone d_before_removal m_eth1 /\ cache_size (d_cache d_before_removal) = 3%nat /\
+  cache_size (d_cache (fst (check_ip_changes (t0 + 1000) d_before_removal))) = 0%nat /\
+  snd (check_ip_changes (t0 + 1000) d_before_removal)
+  = [OIpDel (ip4 10 2 0 10); ORemoved (b "_peer._udp.local.") (b "Peer0._peer._udp.local.")].
+Proof.
+  split; [|repeat split; vm_compute; reflexivity].
+  split.
+  - right. left. vm_compute. reflexivity.
+  - intros a [<-|[]]. vm_compute. reflexivity.
+Qed.
